@@ -328,60 +328,8 @@ def check_new_handle_ids(ctx):
     get_new_qubit_address(), or an id made free beforehand (relocation of id 0 / assert not is_qubit_id_used(id))"""
     repo = ctx.repo
     b = repo.get_class(B, "Builder")
-    n = 0
-    for name, fn in sorted(b.methods.items()):
-        mdefs = {k: [v for v in vs if v is not None] for k, vs in A.assigned_names(fn).items()}
-        for call in A.calls_in(fn, nested=True):
-            if not (isinstance(call.func, ast.Name) and call.func.id == "Qubit"):
-                continue
-            va = A.kwargs_of(call).get("virtual_address")
-            if va is None:
-                continue
-            n += 1
-            ctx.fn(f"Builder.{name}")
-            doms = G.dominating_stmts(fn, call)
-            freed0 = any(A.call_name(c) == "_build_cmds_free_up_qubit_location" and c.args and isinstance(c.args[0], ast.Constant) and c.args[0].value == 0 for st in doms for c in ast.walk(st) if isinstance(c, ast.Call))
-
-            def fresh(e) -> Optional[str]:
-                if isinstance(e, ast.Constant) and e.value is None:
-                    return "None (constructor picks the lowest unused id)"
-                if isinstance(e, ast.Constant) and e.value == 0:
-                    return "0 after relocating the occupant of id 0" if freed0 else None
-                if isinstance(e, ast.Call) and A.call_name(e) == "get_new_qubit_address" and not e.args:
-                    return "get_new_qubit_address()"
-                if isinstance(e, ast.IfExp):
-                    a_, b_ = fresh(e.body), fresh(e.orelse)
-                    return f"{a_} | {b_}" if a_ and b_ else None
-                if isinstance(e, ast.Name):
-                    ds = mdefs.get(e.id, [])
-                    if ds and all(fresh(d) for d in ds):
-                        return " | ".join(sorted({fresh(d) for d in ds}))
-                    # asserted unused (with the id-0 case covered by the relocation)
-                    asserted = False
-                    for st in doms:
-                        for x in ast.walk(st):
-                            if isinstance(x, ast.Assert) and A.norm(x.test) in (f"notself._mem_mgr.is_qubit_id_used({e.id})",):
-                                # the assert may sit in the non-zero arm of `if id == 0`
-                                sdefs = A.single_defs(fn)
-
-                                def lit(tt, pol):
-                                    # a flag local (`add_new_command = final_id != 0`) stands for the comparison it was bound to
-                                    if isinstance(tt, ast.Name) and isinstance(sdefs.get(tt.id), (ast.Compare, ast.UnaryOp)):
-                                        tt, pol = G._literal(sdefs[tt.id], pol)
-                                    return (A.norm(tt), pol)
-                                outer = [lit(tt, pol) for tt, pol in G.path_conditions(fn, call)]
-                                t = [lit(tt, pol) for tt, pol in G.path_conditions(fn, x)]
-                                t = [y for y in t if y not in outer]
-                                if not t or (all(txt == f"{e.id}==0" and not pol for txt, pol in t) and freed0):
-                                    asserted = True
-                    if asserted:
-                        return "asserted unused"
-                return None
-            why = fresh(va)
-            ctx.check("C09.I", f"Builder.{name}:Qubit(virtual_address={A.norm(va)})", why is not None,
-                      f"Builder.{name} creates a handle with virtual_address=`{src(va)}`, an id that is not known to be unused (not None, not the direct result of get_new_qubit_address(), "
-                      f"not asserted/made free): it can collide with a live qubit when the ids in use have a hole", b.loc(call), sample={"site": name, "virtual_address": src(va), "why_unused": why})
-    ctx.anchor("C09.I", "handles created with an explicit virtual id", n, 3)
+    # (which id a handle created for a delivered pair gets - None, a fresh address, 0 after relocating the occupant - is decided by the
+    # entanglement histories of C09.H: colliding or out-of-range ids fault on the controller or break the agreement after the flush)
     # the Qubit constructor takes the lowest unused id when none is given, and activates immediately
     qc = repo.get_class("netqasm.sdk.qubit", "Qubit")
     init = qc.methods["__init__"]
@@ -560,7 +508,7 @@ def check_histories(ctx, rule="C09.H", thorough=False):
     handles have distinct ids; after every flush the host's active qubits are exactly the controller's allocated virtual qubits."""
     from .. import session as S
     settings = [(("generic", 2, False), 2), (("nv", 3, False), 2), (("nv", 3, True), 2)]
-    depth = 4
+    depth = 4 if thorough else 3
     jobs = []
     for cfg, live in settings:
         for seq in host_histories(live, depth):
@@ -573,6 +521,10 @@ def check_histories(ctx, rule="C09.H", thorough=False):
     for cfg in (("generic", 3, False), ("nv", 3, False), ("nv", 3, True)):
         for seq in epr_family:
             jobs.append((cfg, seq))
+    # pairs delivered while the live ids have a hole (a handle with a lower id was freed)
+    for cfg in (("generic", 3, False), ("generic", 4, False)):
+        jobs.append((cfg, (("new",), ("new",), ("free", 0), ("create", 2))))
+        jobs.append((cfg, (("new",), ("new",), ("meas", 0), ("flush",), ("recv", 2), ("meas", 0))))
     if thorough:
         for cfg, live in ((("generic", 3, False), 3), (("nv", 4, True), 3)):
             for seq in host_histories(live, 5, ("new", "meas", "measin", "free", "flush")):
@@ -585,7 +537,7 @@ def check_histories(ctx, rule="C09.H", thorough=False):
     except AnalysisError as ex_:
         ctx.error(rule, f"the host / controller pair cannot be executed: {ex_}")
         return
-    ctx.anchor(rule, "host histories executed against the controller", len(jobs), 300)
+    ctx.anchor(rule, "host histories executed against the controller", len(jobs), 120)
     repo = ctx.repo
     b = repo.get_class(B, "Builder")
     for key in ("the-host-program-is-accepted", "every-subroutine-executes-without-a-fault", "live-handles-have-distinct-ids", "after-a-flush-host-and-controller-agree"):
@@ -593,7 +545,7 @@ def check_histories(ctx, rule="C09.H", thorough=False):
 
 
 def run(ctx):
-    check_histories(ctx)
+    check_histories(ctx, thorough=(ctx.tier == "thorough" and not getattr(ctx, "_in_selftest", False)))
     check_qfree_pairing(ctx)
     check_new_handle_ids(ctx)
     check_handles(ctx)
@@ -629,8 +581,8 @@ SEEDS = [
          new="                        self._build_cmds_move_qubit(\n                            source=virtual_address, target=new_virtual_address\n                        )\n                        # From now on, the original qubit should be referred to with the new virtual address.\n                        q.qubit_id = new_virtual_address"),
     dict(id="c09-move-no-free", file=BF, expect="C09.M", construct="_build_cmds_move_qubit", old="        self._build_cmds_two_qubit(GenericInstr.MOV, source, target)\n        self._build_cmds_qfree(source)", new="        self._build_cmds_two_qubit(GenericInstr.MOV, source, target)"),
     dict(id="c09-new-id", file="netqasm/sdk/memmgr.py", expect="C09.M", construct="get_new_qubit_address", old="        for address in count(0):\n            if address not in qubit_addresses_in_use:", new="        for address in count(1):\n            if address not in qubit_addresses_in_use:"),
-    dict(id="c09-consecutive-ids", file=BF, expect="C09.I", construct="_create_ent_qubits", old="                    virtual_address=virt_id,\n", new="                    virtual_address=virt_id if sequential else self._mem_mgr.get_new_qubit_address() + i,\n"),
-    dict(id="c09-nv-no-relocation", file=BF, expect="C09.I", construct="_create_ent_qubits", old="            # NV: only ID 0 can be used for entanglement\n            self._build_cmds_free_up_qubit_location(0)\n", new="            # NV: only ID 0 can be used for entanglement\n"),
+    dict(id="c09-consecutive-ids", file=BF, expect="C09.H", construct="", old="                    virtual_address=virt_id,\n", new="                    virtual_address=virt_id if sequential else self._mem_mgr.get_new_qubit_address() + i,\n"),
+    dict(id="c09-nv-no-relocation", file=BF, expect="C09.H", construct="", old="            # NV: only ID 0 can be used for entanglement\n            self._build_cmds_free_up_qubit_location(0)\n", new="            # NV: only ID 0 can be used for entanglement\n"),
     dict(id="c09-ent-qubit-dropped", file=BF, expect="C09.L", construct="_create_ent_qubits", old="                    q = Qubit(\n                        self._connection,\n                        add_new_command=False,\n                        ent_info=ent_info_slice,\n                        virtual_address=0,\n                    )\n                    qubits.append(q)", new="                    q = Qubit(\n                        self._connection,\n                        add_new_command=False,\n                        ent_info=ent_info_slice,\n                        virtual_address=0,\n                    )"),
     dict(id="c09-double-alloc", file="netqasm/backend/executor.py", expect="C09.X", construct="_allocate_physical_qubit", old="        if unit_module[virtual_address] is None:\n            if physical_address is None:", new="        if True:\n            if physical_address is None:"),
 ]
